@@ -1,4 +1,1403 @@
+//! C15 - the encrypted transport delivers the exact message sequence or disconnects.
+//!
+//! Environment-answer enumeration on two real `PeerManager`s joined by a harness socket (module
+//! `world`), in-flight manipulation of the byte streams with an exact "rejected and not processed"
+//! oracle, a raw peer driven by an independent BOLT-8 reference (`bolt8`, `raw`) and a byte-for-byte
+//! differential check of LDK's cipher state machine against that reference (`cipher`).
+mod bolt8;
+mod cipher;
+mod nodes;
+mod raw;
+mod world;
+
+use mc_common::cli::{self, Tier};
+use mc_common::evidence::{Evidence, Level};
+use mc_common::explore::Failure;
+use mc_common::findings::{self, Violation};
+use mc_common::{json, par, Value};
+use nodes::*;
+use raw::{Role, Step};
+use std::collections::{BTreeMap, HashSet};
+use std::sync::atomic::{AtomicBool, Ordering};
+use std::sync::{Arc, Mutex};
+use std::time::{Duration, Instant};
+use world::*;
+
+const ID: &str = "C15";
+
+// ---------------------------------------------------------------------------------------------
+// scenarios
+
+fn customs(sizes: &[usize], tag0: u32) -> Vec<Msg> {
+	sizes.iter().enumerate().map(|(i, l)| Msg::Custom { len: *l, tag: tag0 + i as u32 }).collect()
+}
+
+const ALPHABET: [usize; 5] = [0, 1, 2, 17, 18];
+/// Largest payload of a custom message: 65535 minus the two type bytes.
+const MAX_PAYLOAD: usize = 65533;
+
+fn cyc(n: usize, tag0: u32) -> Vec<Msg> {
+	(0..n).map(|i| Msg::Custom { len: ALPHABET[i % 5], tag: tag0 + i as u32 }).collect()
+}
+
+fn scenario(name: &str) -> Scenario {
+	let mk = |a: Vec<Msg>, b: Vec<Msg>, chunk: usize| Scenario { name: name.to_string(), send: [a, b], chunk };
+	let parts: Vec<&str> = name.split(':').collect();
+	match parts[0] {
+		"hs" => mk(vec![], vec![], 0),
+		"seq" => mk(customs(&ALPHABET, 100), vec![Msg::Stfu { tag: 201 }, Msg::Custom { len: 2, tag: 202 }], 0),
+		"seqchan" => mk(
+			vec![Msg::Shutdown { len: 0, tag: 301 }, Msg::TxAbort { len: 17, tag: 302 }, Msg::ChannelReady { tag: 303 }, Msg::QueryRange { tag: 304 }, Msg::Custom { len: 1, tag: 305 }],
+			vec![Msg::Error { len: 18, tag: 311 }, Msg::SendUpdate { excess: 2, tag: 312 }],
+			0,
+		),
+		"mixed" => mk(
+			vec![
+				Msg::Shutdown { len: 17, tag: 401 },
+				Msg::ChannelReady { tag: 402 },
+				Msg::Error { len: 18, tag: 403 },
+				Msg::QueryRange { tag: 404 },
+				Msg::SendUpdate { excess: 0, tag: 405 },
+				Msg::BcastUpdate { excess: 2, tag: 406 },
+				Msg::Custom { len: 1, tag: 407 },
+				Msg::TxAbort { len: 0, tag: 408 },
+				Msg::Stfu { tag: 409 },
+				Msg::BcastUpdate { excess: 17, tag: 410 },
+			],
+			vec![Msg::BcastUpdate { excess: 1, tag: 421 }, Msg::Custom { len: 18, tag: 422 }, Msg::Shutdown { len: 0, tag: 423 }],
+			0,
+		),
+		"big" => {
+			let v = vec![Msg::Custom { len: 1, tag: 501 }, Msg::Custom { len: MAX_PAYLOAD, tag: 502 }, Msg::Custom { len: 2, tag: 503 }];
+			match parts.get(1).copied() {
+				Some("b") => mk(vec![], v, 0),
+				_ => mk(v, vec![], 0),
+			}
+		},
+		"pause" => mk(cyc(14, 600), cyc(14, 700), 0),
+		"rot" => {
+			let n: usize = parts.get(2).and_then(|s| s.parse().ok()).unwrap_or(1003);
+			let chunk: usize = parts.get(3).and_then(|s| s.parse().ok()).unwrap_or(0);
+			match parts.get(1).copied() {
+				Some("b") => mk(vec![], cyc(n, 2000), chunk),
+				Some("ab") => mk(cyc(n, 1000), cyc(n, 5000), chunk),
+				_ => mk(cyc(n, 1000), vec![], chunk),
+			}
+		},
+		_ => cli::die(&format!("unknown scenario {}", name)),
+	}
+}
+
+// ---------------------------------------------------------------------------------------------
+// aggregation
+
+#[derive(Default)]
+struct Agg {
+	runs: u64,
+	api_calls: u64,
+	effective_cut: u64,
+	effective_short: u64,
+	zero_accept_runs: u64,
+	delay_runs: u64,
+	skip_runs: u64,
+	deferred_read_runs: u64,
+	pause_signal_runs: u64,
+	rotation_runs: u64,
+	max_records: u64,
+	delivered_msgs: u64,
+	read_err_runs: u64,
+	outcomes: BTreeMap<String, u64>,
+	stage_rejects: BTreeMap<String, u64>,
+	viol: Vec<Viol>,
+	digests: HashSet<u64>,
+	skipped_by_cap: u64,
+}
+
+#[derive(Clone)]
+struct Viol {
+	oracle: String,
+	family: String,
+	scenario: String,
+	what: String,
+	detail: String,
+	replay: Value,
+	weight: usize,
+}
+
+impl Agg {
+	fn merge(&mut self, o: Agg) {
+		self.runs += o.runs;
+		self.api_calls += o.api_calls;
+		self.effective_cut += o.effective_cut;
+		self.effective_short += o.effective_short;
+		self.zero_accept_runs += o.zero_accept_runs;
+		self.delay_runs += o.delay_runs;
+		self.skip_runs += o.skip_runs;
+		self.deferred_read_runs += o.deferred_read_runs;
+		self.pause_signal_runs += o.pause_signal_runs;
+		self.rotation_runs += o.rotation_runs;
+		self.max_records = self.max_records.max(o.max_records);
+		self.delivered_msgs += o.delivered_msgs;
+		self.read_err_runs += o.read_err_runs;
+		self.skipped_by_cap += o.skipped_by_cap;
+		for (k, v) in o.outcomes {
+			*self.outcomes.entry(k).or_insert(0) += v;
+		}
+		for (k, v) in o.stage_rejects {
+			*self.stage_rejects.entry(k).or_insert(0) += v;
+		}
+		self.viol.extend(o.viol);
+		self.digests.extend(o.digests);
+	}
+	fn note(&mut self, c: &Counters) {
+		self.runs += 1;
+		self.api_calls += c.api_calls;
+		self.effective_cut += (c.cuts_applied > 0) as u64;
+		self.effective_short += (c.shorts_applied > 0) as u64;
+		self.zero_accept_runs += (c.zero_accepts > 0) as u64;
+		self.delay_runs += (c.delays_applied > 0) as u64;
+		self.skip_runs += (c.skips_applied > 0) as u64;
+		self.deferred_read_runs += (c.deferred_reads > 0) as u64;
+		self.pause_signal_runs += (c.pause_signals > 0) as u64;
+		// records after the handshake acts: a direction rotates its key before records 500, 1000, ...
+		let r = c.records[0].saturating_sub(2).max(c.records[1].saturating_sub(1));
+		self.rotation_runs += (r > 500) as u64;
+		self.max_records = self.max_records.max(r);
+		self.delivered_msgs += c.delivered_msgs;
+		self.read_err_runs += (c.read_errs > 0) as u64;
+	}
+	fn outcome(&mut self, o: String) {
+		if self.outcomes.len() < 400 || self.outcomes.contains_key(&o) {
+			*self.outcomes.entry(o).or_insert(0) += 1;
+		}
+	}
+}
+
+// ---------------------------------------------------------------------------------------------
+// tasks
+
+#[derive(Clone, Copy, PartialEq, Eq, Debug)]
+enum Mode {
+	Clean,
+	/// The first deviation of every run is the manipulation the oracle is about.
+	Tamper,
+}
+
+/// Runs `prefix` alone (pool = None) or `prefix + [pool[k]]` for every k in the range.
+struct WTask {
+	family: &'static str,
+	scn: usize,
+	mode: Mode,
+	prefix: Vec<Dev>,
+	pool: Option<(Arc<Vec<Dev>>, usize, usize)>,
+}
+
+struct Ctx {
+	scns: Vec<Scenario>,
+	bases: Vec<Base>,
+	deadline: Instant,
+	capped: AtomicBool,
+	collect_states: bool,
+}
+
+fn world_replay(scn: &Scenario, mode: Mode, devs: &[Dev]) -> Value {
+	json!({
+		"kind": "world",
+		"mode": if mode == Mode::Clean { "clean" } else { "tamper" },
+		"scenario": scn.to_json(),
+		"devs": devs.iter().map(|d| d.to_json()).collect::<Vec<_>>(),
+	})
+}
+
+fn run_world_once(scn: &Scenario, base: Option<&Base>, mode: Mode, devs: &[Dev], collect: bool) -> (Option<Trace>, Result<String, Failure>) {
+	let res = par::guarded(|| run(scn, devs, collect));
+	match res {
+		Err(p) => (None, Err(Failure::new("no-panic", p))),
+		Ok(Err(f)) => (None, Err(f)),
+		Ok(Ok(tr)) => {
+			let verdict = match mode {
+				Mode::Clean => check_clean(scn, &tr),
+				Mode::Tamper => {
+					let owned;
+					let b = match base {
+						Some(b) => b,
+						None => match Base::of(scn) {
+							Ok(b) => {
+								owned = b;
+								&owned
+							},
+							Err(f) => return (Some(tr), Err(f)),
+						},
+					};
+					check_tampered(scn, b, &devs[0], &tr)
+				},
+			};
+			(Some(tr), verdict)
+		},
+	}
+}
+
+fn exec_world(ctx: &Ctx, t: &WTask, agg: &mut Agg) {
+	let scn = &ctx.scns[t.scn];
+	let base = &ctx.bases[t.scn];
+	let mut one = |devs: &[Dev], agg: &mut Agg| {
+		if Instant::now() >= ctx.deadline {
+			ctx.capped.store(true, Ordering::Relaxed);
+			agg.skipped_by_cap += 1;
+			return;
+		}
+		let (tr, verdict) = run_world_once(scn, Some(base), t.mode, devs, ctx.collect_states);
+		if let Some(tr) = &tr {
+			agg.note(&tr.counters);
+			let salt = mc_common::fnv64(scn.name.as_bytes());
+			for d in &tr.state_digests {
+				agg.digests.insert(d ^ salt);
+			}
+		} else {
+			agg.runs += 1;
+		}
+		match verdict {
+			Ok(o) => {
+				if t.mode == Mode::Tamper {
+					let stage = match &devs[0] {
+						Dev::Flip { dir, bit } => format!("flip:{}", stage_name(base, *dir, bit / 8)),
+						Dev::Trunc { dir, off } => format!("trunc:{}", stage_name(base, *dir, (*off).min(base.len(*dir).saturating_sub(1)))),
+						Dev::Splice { dir, at, .. } => format!("splice:{}", stage_name(base, *dir, (*at).min(base.len(*dir).saturating_sub(1)))),
+						_ => "other".into(),
+					};
+					*agg.stage_rejects.entry(stage).or_insert(0) += 1;
+				}
+				agg.outcome(format!("{}:{}", t.family, o));
+			},
+			Err(f) => {
+				let what = devs.iter().map(|d| d.short_str()).collect::<Vec<_>>().join(",");
+				agg.viol.push(Viol {
+					oracle: f.oracle.clone(),
+					family: t.family.to_string(),
+					scenario: scn.name.clone(),
+					what: what.clone(),
+					detail: format!("[{} / {}] {} under [{}]", t.family, scn.name, f.detail, what),
+					replay: world_replay(scn, t.mode, devs),
+					weight: devs.len(),
+				});
+			},
+		}
+	};
+	match &t.pool {
+		None => one(&t.prefix, agg),
+		Some((pool, from, to)) => {
+			let mut devs = t.prefix.clone();
+			devs.push(Dev::Cut { dir: 0, off: 0 });
+			let last = devs.len() - 1;
+			for k in *from..*to {
+				devs[last] = pool[k].clone();
+				one(&devs, agg);
+			}
+		},
+	}
+}
+
+/// All cut positions of both directions.
+fn cut_pool(base: &Base, lo: [usize; 2]) -> Vec<Dev> {
+	let mut v = Vec::new();
+	for d in 0..2 {
+		for off in lo[d].max(1)..base.len(d) {
+			v.push(Dev::Cut { dir: d, off });
+		}
+	}
+	v
+}
+
+/// All short-write positions ("socket full at offset") of both directions. Act one is written by
+/// the driver, not through `send_data`, so direction A starts at 50.
+fn short_pool(base: &Base, lo: [usize; 2]) -> Vec<Dev> {
+	let mut v = Vec::new();
+	for d in 0..2 {
+		let start = if d == A { lo[d].max(50) } else { lo[d] };
+		for off in start..base.len(d) {
+			v.push(Dev::Short { dir: d, off });
+		}
+	}
+	v
+}
+
+fn skip_pool(base: &Base) -> Vec<Dev> {
+	let mut v = Vec::new();
+	for s in 0..2 {
+		for nth in 0..base.proc_calls[s] {
+			v.push(Dev::SkipProc { side: s, nth });
+		}
+	}
+	v
+}
+
+fn delay_pool() -> Vec<Dev> {
+	let mut v = Vec::new();
+	for d in 0..2 {
+		for nth in 0..2 {
+			for rounds in [1usize, 2] {
+				v.push(Dev::DelayW { dir: d, nth, rounds });
+			}
+		}
+	}
+	v
+}
+
+/// Tasks for every execution with at most `k` (1 or 2) deviations from `pool` (pairs in pool order).
+fn upto_k(family: &'static str, scn: usize, pool: Vec<Dev>, k: usize, out: &mut Vec<WTask>) {
+	let pool = Arc::new(pool);
+	let n = pool.len();
+	let step = 64;
+	let mut i = 0;
+	while i < n {
+		out.push(WTask { family, scn, mode: Mode::Clean, prefix: vec![], pool: Some((pool.clone(), i, (i + step).min(n))) });
+		i += step;
+	}
+	if k >= 2 {
+		for i in 0..n {
+			let mut j = i + 1;
+			while j < n {
+				let e = (j + 256).min(n);
+				out.push(WTask { family, scn, mode: Mode::Clean, prefix: vec![pool[i].clone()], pool: Some((pool.clone(), j, e)) });
+				j = e;
+			}
+		}
+	}
+}
+
+fn tamper_tasks(family: &'static str, scn: usize, devs: Vec<Dev>, out: &mut Vec<WTask>) {
+	let pool = Arc::new(devs);
+	let n = pool.len();
+	let mut i = 0;
+	while i < n {
+		let e = (i + 32).min(n);
+		out.push(WTask { family, scn, mode: Mode::Tamper, prefix: vec![], pool: Some((pool.clone(), i, e)) });
+		i = e;
+	}
+}
+
+// ---------------------------------------------------------------------------------------------
+// raw-peer cases
+
+#[derive(Clone, Debug)]
+enum Expect {
+	/// No handler may ever be called.
+	Nothing { must_reject: bool },
+	/// After the three `peer_connected` calls exactly these observations, in order.
+	Exactly { obs: Vec<Ev>, must_reject: bool },
+	/// Whatever reaches a handler must be an in-order, duplicate-free selection of what was sent.
+	Subseq { sent: Vec<Ev> },
+}
+
+#[derive(Clone, Debug)]
+struct RawCase {
+	family: &'static str,
+	role: Role,
+	script: Vec<Step>,
+	expect: Expect,
+	/// The node must have answered with a pong of this many padding bytes.
+	pong: Option<u16>,
+}
+
+fn raw_replay(c: &RawCase) -> Value {
+	let (k, must, obs) = match &c.expect {
+		Expect::Nothing { must_reject } => ("nothing", *must_reject, vec![]),
+		Expect::Exactly { obs, must_reject } => ("exactly", *must_reject, obs.clone()),
+		Expect::Subseq { sent } => ("subseq", false, sent.clone()),
+	};
+	json!({
+		"kind": "raw",
+		"family": c.family,
+		"role": if c.role == Role::RawInitiator { "raw-initiator" } else { "raw-responder" },
+		"script": c.script.iter().map(|s| s.to_json()).collect::<Vec<_>>(),
+		"expect": k,
+		"must_reject": must,
+		"pong": c.pong.map(|p| p as i64).unwrap_or(-1),
+		"obs": obs.iter().map(|e| match e { Ev::Msg { h, ty, bytes } => json!([h, ty, mc_common::hex(bytes)]), _ => json!(null) }).collect::<Vec<_>>(),
+	})
+}
+
+fn raw_case_from_json(v: &Value) -> Option<RawCase> {
+	let role = if v.get("role")?.as_str()? == "raw-initiator" { Role::RawInitiator } else { Role::RawResponder };
+	let script: Vec<Step> = v.get("script")?.as_array()?.iter().map(Step::from_json).collect::<Option<_>>()?;
+	let must = v.get("must_reject")?.as_bool()?;
+	let obs: Vec<Ev> = v
+		.get("obs")?
+		.as_array()?
+		.iter()
+		.map(|o| Some(Ev::Msg { h: o.get(0)?.as_u64()? as u8, ty: o.get(1)?.as_u64()? as u16, bytes: mc_common::unhex(o.get(2)?.as_str()?)? }))
+		.collect::<Option<_>>()?;
+	let expect = match v.get("expect")?.as_str()? {
+		"nothing" => Expect::Nothing { must_reject: must },
+		"exactly" => Expect::Exactly { obs, must_reject: must },
+		_ => Expect::Subseq { sent: obs },
+	};
+	let p = v.get("pong")?.as_i64()?;
+	Some(RawCase { family: "replay", role, script, expect, pong: if p < 0 { None } else { Some(p as u16) } })
+}
+
+fn check_raw(c: &RawCase, tr: &raw::RawTrace) -> Result<String, Failure> {
+	if let Some(b) = &tr.node_stream_bad {
+		return Err(Failure::new("reference-interop", format!("the independent BOLT-8 reference cannot follow the node's output: {}", b)));
+	}
+	let connected = tr.events.iter().filter(|e| matches!(e, Ev::Connected(_))).count();
+	if connected != 0 && connected != 3 {
+		return Err(Failure::new("init-order", format!("{} peer_connected calls", connected)));
+	}
+	// no message before the node processed the raw peer's Init
+	let mut conn = 0;
+	for e in &tr.events {
+		match e {
+			Ev::Connected(_) => conn += 1,
+			Ev::Msg { h, ty, .. } if conn < 3 => {
+				return Err(Failure::new("init-order", format!("handler {} got message type {} before the peer's Init was processed", h, ty)));
+			},
+			_ => {},
+		}
+	}
+	let msgs: Vec<&Ev> = tr.events.iter().filter(|e| matches!(e, Ev::Msg { .. })).collect();
+	let rejected = tr.any_err || tr.ldk_closed;
+	let label;
+	match &c.expect {
+		Expect::Nothing { must_reject } => {
+			if connected > 0 || !msgs.is_empty() {
+				return Err(Failure::new("tamper-not-processed", format!("handlers were called ({} connects, {} messages) although the peer never completed a valid handshake + Init", connected, msgs.len())));
+			}
+			if *must_reject && !rejected {
+				return Err(Failure::new("tamper-detected", "invalid bytes were neither answered with Err nor with disconnect_socket"));
+			}
+			label = format!("nothing rejected={}", rejected);
+		},
+		Expect::Exactly { obs, must_reject } => {
+			if connected != 3 {
+				return Err(Failure::new("exact-sequence", "a valid handshake + Init did not lead to peer_connected"));
+			}
+			if msgs.len() != obs.len() || msgs.iter().zip(obs.iter()).any(|(a, b)| *a != b) {
+				return Err(Failure::new("exact-sequence", format!("handlers observed {} messages, expected {} (or contents differ)", msgs.len(), obs.len())));
+			}
+			if *must_reject && !rejected {
+				return Err(Failure::new("tamper-detected", "expected the connection to be dropped"));
+			}
+			if !*must_reject && rejected {
+				return Err(Failure::new("no-spurious-disconnect", "a well-formed exchange was answered with Err/disconnect"));
+			}
+			label = format!("exactly n={} rejected={}", obs.len(), rejected);
+		},
+		Expect::Subseq { sent } => {
+			let mut i = 0;
+			for m in &msgs {
+				while i < sent.len() && &sent[i] != *m {
+					i += 1;
+				}
+				if i == sent.len() {
+					return Err(Failure::new("exact-sequence", "a handler observed something the raw peer did not send (or out of order / twice)"));
+				}
+				i += 1;
+			}
+			label = format!("subseq seen={} rejected={}", msgs.len().min(3), rejected);
+		},
+	}
+	if tr.handshake_done {
+		// the node's first record must be its Init, readable by the reference
+		match tr.node_msgs.first() {
+			Some(m) if m.len() >= 2 && m[0] == 0 && m[1] == 16 => {},
+			Some(_) => return Err(Failure::new("reference-interop", "the node's first message is not init")),
+			None => return Err(Failure::new("reference-interop", "the node sent no Init after the handshake")),
+		}
+	}
+	if let Some(p) = c.pong {
+		let want_len = 2 + 2 + p as usize;
+		let ok = tr.node_msgs.iter().any(|m| m.len() == want_len && m[0] == 0 && m[1] == 19 && u16::from_be_bytes([m[2], m[3]]) == p);
+		if !ok {
+			return Err(Failure::new("exact-sequence", format!("no pong with {} padding bytes came back", p)));
+		}
+	}
+	Ok(label)
+}
+
+fn exec_raw(ctx: &Ctx, c: &RawCase, agg: &mut Agg) {
+	if Instant::now() >= ctx.deadline {
+		ctx.capped.store(true, Ordering::Relaxed);
+		agg.skipped_by_cap += 1;
+		return;
+	}
+	let res = par::guarded(|| raw::run(c.role, &c.script, &[]));
+	agg.runs += 1;
+	let verdict = match res {
+		Err(p) => Err(Failure::new("no-panic", p)),
+		Ok(tr) => {
+			agg.api_calls += tr.api_calls;
+			let rejected = tr.any_err || tr.ldk_closed;
+			let v = check_raw(c, &tr);
+			if v.is_ok() {
+				*agg.stage_rejects.entry(format!("raw:{}:{}", c.family, if rejected { "rejected" } else { "not-rejected" })).or_insert(0) += 1;
+				if tr.handshake_done {
+					*agg.stage_rejects.entry("raw:handshake-completed-with-reference".into()).or_insert(0) += 1;
+				}
+			}
+			v
+		},
+	};
+	match verdict {
+		Ok(o) => agg.outcome(format!("{}:{}", c.family, o)),
+		Err(f) => {
+			let r = raw_replay(c);
+			let what = format!("{:016x}", mc_common::fnv64(r.to_string().as_bytes()));
+			agg.viol.push(Viol {
+				oracle: f.oracle.clone(),
+				family: c.family.to_string(),
+				scenario: format!("{:?}", c.role),
+				what,
+				detail: format!("[{} / {:?}] {} (script of {} steps, see replay)", c.family, c.role, f.detail, c.script.len()),
+				replay: r,
+				weight: c.script.iter().map(|s| match s { Step::Bytes(b) => b.len(), Step::Msg { payload, .. } => payload.len() + 2, Step::Record { body, .. } => body.len(), _ => 1 }).sum(),
+			});
+		},
+	}
+}
+
+fn both_roles() -> [Role; 2] {
+	[Role::RawInitiator, Role::RawResponder]
+}
+
+fn act(xor: Vec<u8>) -> Step {
+	Step::Act { xor, keep: usize::MAX }
+}
+
+/// Structured garbage offered in place of a 50-byte handshake act.
+fn garbage_corpus() -> Vec<Vec<u8>> {
+	let g = fixed_pubkey().serialize();
+	let mut v: Vec<Vec<u8>> = Vec::new();
+	for fill in [0x00u8, 0xff, 0x01, 0x02, 0x03, 0x80] {
+		for len in [3usize, 17, 18, 33, 34, 49, 50, 51, 66, 100, 116, 4096] {
+			v.push(vec![fill; len]);
+		}
+	}
+	// version 0, a valid curve point, then various MACs
+	for mac in [0x00u8, 0xff] {
+		let mut a = vec![0u8];
+		a.extend_from_slice(&g);
+		a.extend_from_slice(&[mac; 16]);
+		v.push(a);
+	}
+	// version 0, x coordinate not on the curve / out of range / uncompressed-prefix
+	for (pfx, x) in [(2u8, 0x00u8), (2, 0xff), (3, 0xff), (4, 0x11), (0, 0x11), (5, 0x11), (2, 0x05)] {
+		let mut a = vec![0u8, pfx];
+		a.extend_from_slice(&[x; 32]);
+		a.extend_from_slice(&[0x42; 16]);
+		v.push(a);
+	}
+	// other version bytes in front of an otherwise plausible act
+	for ver in [1u8, 2, 0x7f, 0x80, 0xff] {
+		let mut a = vec![ver];
+		a.extend_from_slice(&g);
+		a.extend_from_slice(&[0x42; 16]);
+		v.push(a);
+	}
+	// text protocols / TLS hello heads, a counting pattern
+	v.push(b"GET / HTTP/1.1\r\nHost: lightning\r\n\r\n................".to_vec());
+	v.push(vec![0x16, 0x03, 0x01, 0x02, 0x00, 0x01, 0x00, 0x01, 0xfc, 0x03, 0x03].into_iter().chain((0..60).map(|i| i as u8)).collect());
+	v.push((0..=255u8).collect());
+	v.push((0..70000usize).map(|i| (i * 7) as u8).collect());
+	v
+}
+
+/// Well-formed messages (type, payload, what a handler must observe if delivered after Init).
+fn wellformed() -> Vec<(u16, Vec<u8>, Vec<Ev>, Option<u16>)> {
+	let mut v = Vec::new();
+	let ms = [
+		Msg::Shutdown { len: 0, tag: 801 },
+		Msg::Shutdown { len: 17, tag: 802 },
+		Msg::TxAbort { len: 18, tag: 803 },
+		Msg::ChannelReady { tag: 804 },
+		Msg::Stfu { tag: 805 },
+		Msg::Error { len: 2, tag: 806 },
+		Msg::QueryRange { tag: 807 },
+		Msg::SendUpdate { excess: 1, tag: 808 },
+		Msg::Custom { len: 0, tag: 809 },
+		Msg::Custom { len: 18, tag: 810 },
+	];
+	for m in ms {
+		let (ty, p) = m.wire();
+		v.push((ty, p, m.expected(), None));
+	}
+	// hand-encoded per BOLT-1/2/7 (not through LDK's writers)
+	let cid = [0x6bu8; 32];
+	// update_fee: channel_id, feerate_per_kw
+	let mut p = cid.to_vec();
+	p.extend_from_slice(&253u32.to_be_bytes());
+	v.push((T_UPDATE_FEE, p.clone(), vec![Ev::Msg { h: H_CHAN, ty: T_UPDATE_FEE, bytes: p }], None));
+	// tx_complete: channel_id
+	v.push((T_TX_COMPLETE, cid.to_vec(), vec![Ev::Msg { h: H_CHAN, ty: T_TX_COMPLETE, bytes: cid.to_vec() }], None));
+	// update_fail_htlc: channel_id, id, len, reason
+	let mut p = cid.to_vec();
+	p.extend_from_slice(&7u64.to_be_bytes());
+	p.extend_from_slice(&3u16.to_be_bytes());
+	p.extend_from_slice(&[1, 2, 3]);
+	v.push((T_UPDATE_FAIL_HTLC, p.clone(), vec![Ev::Msg { h: H_CHAN, ty: T_UPDATE_FAIL_HTLC, bytes: p }], None));
+	// update_fulfill_htlc: channel_id, id, preimage
+	let mut p = cid.to_vec();
+	p.extend_from_slice(&9u64.to_be_bytes());
+	p.extend_from_slice(&[0xab; 32]);
+	v.push((T_UPDATE_FULFILL_HTLC, p.clone(), vec![Ev::Msg { h: H_CHAN, ty: T_UPDATE_FULFILL_HTLC, bytes: p }], None));
+	// peer_storage: u16 length + blob
+	let mut p = 5u16.to_be_bytes().to_vec();
+	p.extend_from_slice(&[9, 8, 7, 6, 5]);
+	v.push((T_PEER_STORAGE, p.clone(), vec![Ev::Msg { h: H_CHAN, ty: T_PEER_STORAGE, bytes: p }], None));
+	// warning (logged only), ping (answered with pong), pong, gossip_timestamp_filter, unknown odd
+	let mut p = cid.to_vec();
+	p.extend_from_slice(&2u16.to_be_bytes());
+	p.extend_from_slice(b"hi");
+	v.push((T_WARNING, p, vec![], None));
+	for (ponglen, byteslen) in [(0u16, 0u16), (1, 17), (17, 0), (65531, 2), (65532, 1), (65535, 0)] {
+		let mut p = ponglen.to_be_bytes().to_vec();
+		p.extend_from_slice(&byteslen.to_be_bytes());
+		p.extend_from_slice(&vec![0u8; byteslen as usize]);
+		v.push((T_PING, p, vec![], if ponglen < 65532 { Some(ponglen) } else { None }));
+	}
+	let mut p = 3u16.to_be_bytes().to_vec();
+	p.extend_from_slice(&[0, 0, 0]);
+	v.push((T_PONG, p, vec![], None));
+	let mut p = bitcoin::constants::ChainHash::using_genesis_block(bitcoin::Network::Testnet).as_bytes().to_vec();
+	p.extend_from_slice(&0xffff_fff0u32.to_be_bytes());
+	p.extend_from_slice(&10u32.to_be_bytes());
+	v.push((T_GOSSIP_TIMESTAMP_FILTER, p, vec![], None));
+	v.push((32001, vec![1, 2, 3], vec![], None));
+	v
+}
+
+fn raw_cases(tier: Tier) -> Vec<RawCase> {
+	let mut v: Vec<RawCase> = Vec::new();
+	let thorough = tier.is_thorough();
+	// R1/R2: every byte string of length <= 2 in place of act one / act two, then EOF; and the same
+	// strings replacing the head of an otherwise valid act (expressed as xor masks over the valid act:
+	// as the mask ranges over all values so does the replaced head).
+	for role in both_roles() {
+		let pre: Vec<Step> = vec![];
+		let fam_eof = if role == Role::RawInitiator { "garbage-act1-eof" } else { "garbage-act2-eof" };
+		let fam_head = if role == Role::RawInitiator { "garbage-act1-head" } else { "garbage-act2-head" };
+		let fam_pad = if role == Role::RawInitiator { "garbage-act1-padded" } else { "garbage-act2-padded" };
+		let fam_corpus = if role == Role::RawInitiator { "garbage-act1-corpus" } else { "garbage-act2-corpus" };
+		let fam_trunc = if role == Role::RawInitiator { "act1-truncated" } else { "act2-truncated" };
+		v.push(RawCase { family: fam_eof, role, script: [pre.clone(), vec![Step::Close]].concat(), expect: Expect::Nothing { must_reject: false }, pong: None });
+		for a in 0..=255u8 {
+			v.push(RawCase { family: fam_eof, role, script: [pre.clone(), vec![Step::Bytes(vec![a]), Step::Close]].concat(), expect: Expect::Nothing { must_reject: false }, pong: None });
+			v.push(RawCase { family: fam_head, role, script: [pre.clone(), vec![act(vec![a]), Step::Close]].concat(), expect: Expect::Nothing { must_reject: a != 0 }, pong: None });
+			for pad in [0x00u8, 0xff] {
+				let mut b = vec![pad; 50];
+				b[0] = a;
+				v.push(RawCase { family: fam_pad, role, script: [pre.clone(), vec![Step::Bytes(b), Step::Close]].concat(), expect: Expect::Nothing { must_reject: true }, pong: None });
+			}
+			for b in 0..=255u8 {
+				v.push(RawCase { family: fam_eof, role, script: [pre.clone(), vec![Step::Bytes(vec![a, b]), Step::Close]].concat(), expect: Expect::Nothing { must_reject: false }, pong: None });
+				v.push(RawCase { family: fam_head, role, script: [pre.clone(), vec![act(vec![a, b]), Step::Close]].concat(), expect: Expect::Nothing { must_reject: a != 0 || b != 0 }, pong: None });
+				if thorough || a < 4 || b < 2 {
+					let mut bb = vec![0u8; 50];
+					bb[0] = a;
+					bb[1] = b;
+					v.push(RawCase { family: fam_pad, role, script: [pre.clone(), vec![Step::Bytes(bb), Step::Close]].concat(), expect: Expect::Nothing { must_reject: true }, pong: None });
+				}
+			}
+		}
+		for g in garbage_corpus() {
+			let must = g.len() >= 50;
+			v.push(RawCase { family: fam_corpus, role, script: [pre.clone(), vec![Step::Bytes(g), Step::Close]].concat(), expect: Expect::Nothing { must_reject: must }, pong: None });
+		}
+		for keep in 0..50usize {
+			v.push(RawCase { family: fam_trunc, role, script: [pre.clone(), vec![Step::Act { xor: vec![], keep }, Step::Close]].concat(), expect: Expect::Nothing { must_reject: false }, pong: None });
+		}
+		// every bit of the act produced by the reference
+		for bit in 0..400usize {
+			let mut x = vec![0u8; bit / 8 + 1];
+			x[bit / 8] = 1 << (bit % 8);
+			v.push(RawCase { family: if role == Role::RawInitiator { "ref-act1-bitflip" } else { "ref-act2-bitflip" }, role, script: vec![act(x), Step::Close], expect: Expect::Nothing { must_reject: true }, pong: None });
+		}
+	}
+	// act three produced by the reference: every bit, truncations, garbage
+	for bit in 0..528usize {
+		let mut x = vec![0u8; bit / 8 + 1];
+		x[bit / 8] = 1 << (bit % 8);
+		v.push(RawCase { family: "ref-act3-bitflip", role: Role::RawInitiator, script: vec![act(vec![]), act(x), Step::Close], expect: Expect::Nothing { must_reject: true }, pong: None });
+	}
+	for keep in 0..66usize {
+		v.push(RawCase { family: "act3-truncated", role: Role::RawInitiator, script: vec![act(vec![]), Step::Act { xor: vec![], keep }, Step::Close], expect: Expect::Nothing { must_reject: false }, pong: None });
+	}
+	for g in garbage_corpus() {
+		let must = g.len() >= 66;
+		v.push(RawCase { family: "garbage-act3-corpus", role: Role::RawInitiator, script: vec![act(vec![]), Step::Bytes(g), Step::Close], expect: Expect::Nothing { must_reject: must }, pong: None });
+	}
+	// R3: well-formed messages before the raw peer's Init, and (control) after it
+	for role in both_roles() {
+		let hs = raw::handshake_steps(role);
+		v.push(RawCase { family: "control-init-only", role, script: [hs.clone(), vec![Step::Init, Step::Close]].concat(), expect: Expect::Exactly { obs: vec![], must_reject: false }, pong: None });
+		v.push(RawCase { family: "no-init-eof", role, script: [hs.clone(), vec![Step::Close]].concat(), expect: Expect::Nothing { must_reject: false }, pong: None });
+		for (ty, payload, obs, pong) in wellformed() {
+			let m = Step::Msg { ty, payload: payload.clone() };
+			v.push(RawCase { family: "wellformed-before-init", role, script: [hs.clone(), vec![m.clone(), Step::Init, m.clone(), Step::Close]].concat(), expect: Expect::Nothing { must_reject: true }, pong: None });
+			v.push(RawCase { family: "wellformed-after-init", role, script: [hs.clone(), vec![Step::Init, m.clone()]].concat(), expect: Expect::Exactly { obs: obs.clone(), must_reject: false }, pong });
+			// twice after Init: both observed, in order
+			let twice: Vec<Ev> = obs.iter().cloned().chain(obs.iter().cloned()).collect();
+			v.push(RawCase { family: "wellformed-after-init", role, script: [hs.clone(), vec![Step::Init, m.clone(), m.clone()]].concat(), expect: Expect::Exactly { obs: twice, must_reject: false }, pong });
+			// every strict prefix of the payload after Init: never panics, never invents a message
+			let n = payload.len();
+			let idx: Vec<usize> = if thorough || n <= 80 { (0..n).collect() } else { (0..40).chain(n - 40..n).collect() };
+			for k in idx {
+				let t = Step::Msg { ty, payload: payload[..k].to_vec() };
+				let sent: Vec<Ev> = vec![];
+				v.push(RawCase { family: "truncated-payload-after-init", role, script: [hs.clone(), vec![Step::Init, t, Step::Close]].concat(), expect: Expect::Subseq { sent }, pong: None });
+			}
+		}
+		// every 2-byte plaintext (= every message type with an empty payload) before and after Init
+		let stride = if thorough { 1 } else { 1 };
+		let mut ty = 0u32;
+		while ty <= 65535 {
+			let t = ty as u16;
+			let m = Step::Msg { ty: t, payload: vec![] };
+			let sent = vec![Ev::Msg { h: H_CUSTOM, ty: t, bytes: vec![] }];
+			v.push(RawCase { family: "type-sweep-before-init", role, script: [hs.clone(), vec![m.clone(), Step::Close]].concat(), expect: Expect::Nothing { must_reject: false }, pong: None });
+			if role == Role::RawInitiator || thorough || t < 1024 || t >= 32768 - 8 && t < 32768 + 8 {
+				v.push(RawCase { family: "type-sweep-after-init", role, script: [hs.clone(), vec![Step::Init, m, Step::Close]].concat(), expect: Expect::Subseq { sent }, pong: None });
+			}
+			ty += stride;
+		}
+		// malformed records after the handshake
+		v.push(RawCase { family: "record-len0", role, script: [hs.clone(), vec![Step::Record { claimed: 0, body: vec![] }, Step::Close]].concat(), expect: Expect::Nothing { must_reject: true }, pong: None });
+		v.push(RawCase { family: "record-len0", role, script: [hs.clone(), vec![Step::Init, Step::Record { claimed: 0, body: vec![] }, Step::Close]].concat(), expect: Expect::Exactly { obs: vec![], must_reject: true }, pong: None });
+		for x in 0..=255u8 {
+			v.push(RawCase { family: "record-len1", role, script: [hs.clone(), vec![Step::Init, Step::Record { claimed: 1, body: vec![x] }, Step::Close]].concat(), expect: Expect::Exactly { obs: vec![], must_reject: true }, pong: None });
+			v.push(RawCase { family: "record-len1", role, script: [hs.clone(), vec![Step::Record { claimed: 1, body: vec![x] }, Step::Close]].concat(), expect: Expect::Nothing { must_reject: true }, pong: None });
+		}
+		// a length field that lies about the body: the node must fail on the MAC or keep waiting, never deliver
+		for (claimed, blen) in [(2u16, 3usize), (3, 2), (40, 2), (2, 40), (65535, 10), (0, 2), (1, 2)] {
+			let mut body = T_CUSTOM.to_be_bytes().to_vec();
+			body.resize(blen.max(2), 0x5a);
+			body.truncate(blen);
+			let follow = Step::Msg { ty: T_CUSTOM, payload: vec![1, 2, 3] };
+			v.push(RawCase { family: "record-length-lie", role, script: [hs.clone(), vec![Step::Init, Step::Record { claimed, body }, follow.clone(), follow, Step::Close]].concat(), expect: Expect::Exactly { obs: vec![], must_reject: false }, pong: None });
+		}
+		// protocol-level violations
+		v.push(RawCase { family: "second-init", role, script: [hs.clone(), vec![Step::Init, Step::Init, Step::Msg { ty: T_CUSTOM, payload: vec![7] }, Step::Close]].concat(), expect: Expect::Exactly { obs: vec![], must_reject: true }, pong: None });
+		v.push(RawCase { family: "unknown-even-type", role, script: [hs.clone(), vec![Step::Init, Step::Msg { ty: 100, payload: vec![] }, Step::Msg { ty: T_CUSTOM, payload: vec![7] }, Step::Close]].concat(), expect: Expect::Exactly { obs: vec![], must_reject: true }, pong: None });
+		v.push(RawCase {
+			family: "unknown-odd-type",
+			role,
+			script: [hs.clone(), vec![Step::Init, Step::Msg { ty: 101, payload: vec![1, 2] }, Step::Msg { ty: T_CUSTOM, payload: vec![7] }]].concat(),
+			expect: Expect::Exactly { obs: vec![Ev::Msg { h: H_CUSTOM, ty: T_CUSTOM, bytes: vec![7] }], must_reject: false },
+			pong: None,
+		});
+		// init with an unknown required (even) feature bit: feature bit 100 -> byte 12 from the end
+		let mut feat = vec![0u8; 13];
+		feat[0] = 1 << 4;
+		let mut init = vec![0u8, 0];
+		init.extend_from_slice(&(feat.len() as u16).to_be_bytes());
+		init.extend_from_slice(&feat);
+		v.push(RawCase { family: "init-unknown-required-feature", role, script: [hs.clone(), vec![Step::Msg { ty: T_INIT, payload: init }, Step::Msg { ty: T_CUSTOM, payload: vec![7] }, Step::Close]].concat(), expect: Expect::Nothing { must_reject: true }, pong: None });
+		// init naming only a foreign chain (TLV 1)
+		let mut init = vec![0u8, 0, 0, 0, 1, 32];
+		init.extend_from_slice(&[0x99; 32]);
+		v.push(RawCase { family: "init-foreign-chain", role, script: [hs.clone(), vec![Step::Msg { ty: T_INIT, payload: init }, Step::Msg { ty: T_CUSTOM, payload: vec![7] }, Step::Close]].concat(), expect: Expect::Nothing { must_reject: true }, pong: None });
+		// the largest possible message, unknown odd type and custom type
+		v.push(RawCase {
+			family: "max-size-message",
+			role,
+			script: [hs.clone(), vec![Step::Init, Step::Msg { ty: 32001, payload: vec![0xee; 65533] }, Step::Msg { ty: T_CUSTOM, payload: pattern(65533, 9) }]].concat(),
+			expect: Expect::Exactly { obs: vec![Ev::Msg { h: H_CUSTOM, ty: T_CUSTOM, bytes: pattern(65533, 9) }], must_reject: false },
+			pong: None,
+		});
+	}
+	v
+}
+
+// ---------------------------------------------------------------------------------------------
+// driver
+
+fn select_offsets(len: usize, lo: usize, thorough: bool) -> Vec<usize> {
+	if thorough {
+		return (lo..len).collect();
+	}
+	let mut v: Vec<usize> = Vec::new();
+	for o in lo..len {
+		let near_edge = o < lo + 96 || o + 96 >= len;
+		let near_4k = (o % 4096) <= 1 || (o % 4096) >= 4095;
+		let near_8k = (o % 8192) <= 1 || (o % 8192) >= 8191;
+		if near_edge || near_4k || near_8k || o % 509 == 0 {
+			v.push(o);
+		}
+	}
+	v
+}
+
+fn replay_file(path: &std::path::Path) -> ! {
+	let s = std::fs::read_to_string(path).unwrap_or_else(|_| cli::die("cannot read replay file"));
+	let v: Value = mc_common::serde_json::from_str(&s).unwrap_or_else(|_| cli::die("replay file is not JSON"));
+	let r = v.get("replay").unwrap_or(&v);
+	par::set_quiet(false);
+	let verdict: Result<String, Failure> = match r.get("kind").and_then(|k| k.as_str()) {
+		Some("world") => {
+			let scn = r.get("scenario").and_then(Scenario::from_json).unwrap_or_else(|| cli::die("bad scenario in replay"));
+			let devs: Vec<Dev> = r.get("devs").and_then(|d| d.as_array()).map(|a| a.iter().filter_map(Dev::from_json).collect()).unwrap_or_default();
+			let mode = if r.get("mode").and_then(|m| m.as_str()) == Some("tamper") { Mode::Tamper } else { Mode::Clean };
+			let (tr, verdict) = run_world_once(&scn, None, mode, &devs, false);
+			if let Some(tr) = tr {
+				eprintln!("replay: {} rounds, {} API calls, {} handler events, read_err={:?} ldk_closed={:?}", tr.counters.rounds, tr.counters.api_calls, tr.events.len(), tr.read_err, tr.ldk_closed);
+			}
+			verdict
+		},
+		Some("raw") => {
+			let c = raw_case_from_json(r).unwrap_or_else(|| cli::die("bad raw case in replay"));
+			match par::guarded(|| raw::run(c.role, &c.script, &[])) {
+				Err(p) => Err(Failure::new("no-panic", p)),
+				Ok(tr) => {
+					eprintln!("replay: handshake_done={} any_err={} ldk_closed={} events={}", tr.handshake_done, tr.any_err, tr.ldk_closed, tr.events.len());
+					check_raw(&c, &tr)
+				},
+			}
+		},
+		Some("cipher") => {
+			let n = r.get("n").and_then(|n| n.as_u64()).unwrap_or(2100) as usize;
+			match par::guarded(|| cipher::differential(n, true)) {
+				Err(p) => Err(Failure::new("no-panic", p)),
+				Ok(Err(f)) => Err(f),
+				Ok(Ok(_)) => Ok("cipher ok".into()),
+			}
+		},
+		_ => cli::die("replay file has no known kind"),
+	};
+	match verdict {
+		Ok(o) => {
+			println!("REPLAY property={} verdict=holds ({})", ID, o);
+			std::process::exit(0)
+		},
+		Err(f) => {
+			println!("REPLAY property={} verdict=VIOLATION oracle={} detail={}", ID, f.oracle, f.detail);
+			std::process::exit(1)
+		},
+	}
+}
+
 fn main() {
-	let _args = mc_common::cli::parse();
-	mc_common::cli::die("engine not built yet");
+	let args = cli::parse();
+	par::install_quiet_panic_hook();
+	if let Some(p) = &args.replay {
+		replay_file(p);
+	}
+	if args.property != ID {
+		cli::die(&format!("mc-transport only checks {}", ID));
+	}
+	let tier = args.tier;
+	let thorough = tier.is_thorough();
+	let cap_s = if args.wall_cap_s > 0 { args.wall_cap_s } else if thorough { 2400 } else { 55 };
+	let start = Instant::now();
+	let deadline = start + Duration::from_secs(cap_s);
+	let threads = args.threads.max(1);
+	let only = args.opt("only").map(|s| s.to_string());
+	let want = |fam: &str| only.as_ref().map(|o| o.split(',').any(|x| fam.starts_with(x))).unwrap_or(true);
+
+	let mut ev = Evidence::new(ID, tier, args.seed, Level::ModelChecking);
+	let mut violations: Vec<Violation> = Vec::new();
+
+	// 0. the reference must itself agree with the BOLT-8 test vectors
+	if let Err(e) = bolt8::self_check() {
+		cli::die(&format!("the independent BOLT-8 reference fails the specification's test vectors: {}", e));
+	}
+
+	// 1. cipher layer in isolation, LDK encryptor vs reference
+	let mut agg_total = Agg::default();
+	let mut timings: Vec<(String, f64, u64)> = Vec::new();
+	if want("cipher") {
+		let t0 = Instant::now();
+		let n = if thorough { 5200 } else { 2100 };
+		match par::guarded(|| cipher::differential(n, true)) {
+			Err(p) => violations.push(Violation { property: ID.into(), oracle: "no-panic".into(), identity: "no-panic|cipher".into(), detail: p, replay: json!({"kind": "cipher", "n": n}) }),
+			Ok(Err(f)) => violations.push(Violation { property: ID.into(), oracle: f.oracle.clone(), identity: format!("{}|cipher|{}", f.oracle, f.detail), detail: f.detail, replay: json!({"kind": "cipher", "n": n}) }),
+			Ok(Ok(st)) => {
+				if st.rotations < 8 {
+					cli::die("vacuity: the cipher differential crossed fewer than 8 key rotations");
+				}
+				ev.set("cipher_differential", json!({"messages": st.messages, "key_rotations": st.rotations, "ciphertext_bytes_compared": st.bytes}));
+			},
+		}
+		timings.push(("cipher".into(), t0.elapsed().as_secs_f64(), 1));
+	}
+
+	// 2. scenarios and their base runs
+	let scn_names: Vec<String> = {
+		let mut v: Vec<String> = ["hs", "seq", "seqchan", "mixed", "big:a", "big:b", "pause", "rot:a:1003", "rot:b:1003", "rot:ab:1003", "rot:a:1003:4096"].iter().map(|s| s.to_string()).collect();
+		if thorough {
+			v.push("rot:ab:2505".into());
+		}
+		v
+	};
+	let scns: Vec<Scenario> = scn_names.iter().map(|n| scenario(n)).collect();
+	let mut bases = Vec::new();
+	for s in &scns {
+		match par::guarded(|| Base::of(s)) {
+			Ok(Ok(b)) => bases.push(b),
+			Ok(Err(f)) => {
+				// the default schedule itself violates the property: report and stop (nothing else is meaningful)
+				violations.push(Violation { property: ID.into(), oracle: f.oracle.clone(), identity: format!("{}|base|{}", f.oracle, s.name), detail: format!("[base / {}] {} under the default schedule", s.name, f.detail), replay: world_replay(s, Mode::Clean, &[]) });
+				ev.set("states", 1u64).set("transitions", 1u64).set("traces_validated_against_impl", 1u64);
+				ev.sample(json!({"scenario": s.name, "devs": []}), 8);
+				std::process::exit(findings::conclude(ID, &violations, &mut ev));
+			},
+			Err(p) => {
+				violations.push(Violation { property: ID.into(), oracle: "no-panic".into(), identity: format!("no-panic|base|{}", s.name), detail: format!("[base / {}] {}", s.name, p), replay: world_replay(s, Mode::Clean, &[]) });
+				ev.set("states", 1u64).set("transitions", 1u64).set("traces_validated_against_impl", 1u64);
+				ev.sample(json!({"scenario": s.name, "devs": []}), 8);
+				std::process::exit(findings::conclude(ID, &violations, &mut ev));
+			},
+		}
+	}
+	let idx = |n: &str| scn_names.iter().position(|x| x == n).unwrap();
+	for n in ["seq", "seqchan", "big:a", "big:b"] {
+		if let Err(e) = verify_wire_order(&scns[idx(n)], &bases[idx(n)]) {
+			cli::die(&format!("scenario {} does not have the wire layout the tamper oracle assumes: {}", n, e));
+		}
+	}
+	let ctx = Ctx { scns, bases, deadline, capped: AtomicBool::new(false), collect_states: true };
+	let init_start = |b: &Base| [b.unit_start(A, 2), b.unit_start(B, 1)];
+
+	// 3. task families
+	let mut families: Vec<(&'static str, Vec<WTask>)> = Vec::new();
+	{
+		// F1: handshake + Init, every execution with <= 2 deviations (cuts, short writes, skipped
+		// process_events, delayed writable notifications)
+		let i = idx("hs");
+		let b = &ctx.bases[i];
+		let mut pool = cut_pool(b, [0, 0]);
+		pool.extend(short_pool(b, [0, 0]));
+		pool.extend(skip_pool(b));
+		pool.extend(delay_pool());
+		let mut t = vec![WTask { family: "hs<=2", scn: i, mode: Mode::Clean, prefix: vec![], pool: None }];
+		upto_k("hs<=2", i, pool, 2, &mut t);
+		families.push(("hs<=2", t));
+		if thorough {
+			// every triple of cut positions over the handshake acts and Init
+			let cuts = Arc::new(cut_pool(b, [0, 0]));
+			let n = cuts.len();
+			let mut t = Vec::new();
+			for x in 0..n {
+				for y in x + 1..n {
+					if y + 1 < n {
+						t.push(WTask { family: "hs-3cuts", scn: i, mode: Mode::Clean, prefix: vec![cuts[x].clone(), cuts[y].clone()], pool: Some((cuts.clone(), y + 1, n)) });
+					}
+				}
+			}
+			families.push(("hs-3cuts", t));
+		}
+	}
+	{
+		// F2: short message sequence over the size alphabet in both directions
+		let i = idx("seq");
+		let b = &ctx.bases[i];
+		let lo = if thorough { [0, 0] } else { init_start(b) };
+		let mut pool1 = cut_pool(b, [0, 0]);
+		pool1.extend(short_pool(b, [0, 0]));
+		pool1.extend(skip_pool(b));
+		let mut t = vec![WTask { family: "seq<=2", scn: i, mode: Mode::Clean, prefix: vec![], pool: None }];
+		upto_k("seq<=2", i, pool1, 1, &mut t);
+		// pairs: quick = both deviations at or after the start of the Init records; thorough = anywhere
+		let mut pool2 = cut_pool(b, lo);
+		pool2.extend(short_pool(b, lo));
+		pool2.extend(skip_pool(b));
+		pool2.extend(delay_pool());
+		let mut t2 = Vec::new();
+		upto_k("seq<=2", i, pool2, 2, &mut t2);
+		// drop the singles of the second pool (already run)
+		t2.retain(|x| !x.prefix.is_empty());
+		t.extend(t2);
+		families.push(("seq<=2", t));
+	}
+	for name in ["seqchan", "mixed"] {
+		// F3: channel / routing / gossip-broadcast messages: every single deviation; pairs in thorough
+		let i = idx(name);
+		let b = &ctx.bases[i];
+		let mut pool = cut_pool(b, [0, 0]);
+		pool.extend(short_pool(b, [0, 0]));
+		pool.extend(skip_pool(b));
+		let mut t = vec![WTask { family: "chanmsgs", scn: i, mode: Mode::Clean, prefix: vec![], pool: None }];
+		if thorough {
+			let lo = init_start(b);
+			upto_k("chanmsgs", i, pool, 1, &mut t);
+			let mut p2 = cut_pool(b, lo);
+			p2.extend(short_pool(b, lo));
+			let mut t2 = Vec::new();
+			upto_k("chanmsgs", i, p2, 2, &mut t2);
+			t2.retain(|x| !x.prefix.is_empty());
+			t.extend(t2);
+		} else {
+			upto_k("chanmsgs", i, pool, 1, &mut t);
+		}
+		families.push(("chanmsgs", t));
+	}
+	{
+		// F4: back-pressure: both sides queue 14 messages; a blocked writer with >= 12 queued
+		// messages pauses its own reads. Every single deviation; short write x delayed writable;
+		// short write in A->B's first records x every cut/short in B->A.
+		let i = idx("pause");
+		let b = &ctx.bases[i];
+		let mut pool = cut_pool(b, [0, 0]);
+		pool.extend(short_pool(b, [0, 0]));
+		pool.extend(skip_pool(b));
+		let mut t = vec![WTask { family: "pause", scn: i, mode: Mode::Clean, prefix: vec![], pool: None }];
+		upto_k("pause", i, pool, 1, &mut t);
+		let is = init_start(b);
+		let delays = Arc::new(delay_pool());
+		let stride = if thorough { 1 } else { 3 };
+		for d in 0..2 {
+			let hi = if thorough { b.len(d) } else { (b.unit_start(d, hs_units(d) + 4)).min(b.len(d)) };
+			let mut off = is[d];
+			while off < hi {
+				t.push(WTask { family: "pause", scn: i, mode: Mode::Clean, prefix: vec![Dev::Short { dir: d, off }], pool: Some((delays.clone(), 0, delays.len())) });
+				off += 1;
+			}
+		}
+		let mut other: Vec<Dev> = Vec::new();
+		for off in (is[B]..b.len(B)).step_by(stride) {
+			other.push(Dev::Cut { dir: B, off });
+			other.push(Dev::Short { dir: B, off });
+		}
+		let other = Arc::new(other);
+		let hi = b.unit_start(A, hs_units(A) + 3).min(b.len(A));
+		for off in (is[A]..hi).step_by(stride) {
+			t.push(WTask { family: "pause", scn: i, mode: Mode::Clean, prefix: vec![Dev::Short { dir: A, off }], pool: Some((other.clone(), 0, other.len())) });
+		}
+		families.push(("pause", t));
+	}
+	for name in ["big:a", "big:b"] {
+		// F5: a maximum-size message: single cuts / short writes over the big record
+		let i = idx(name);
+		let b = &ctx.bases[i];
+		let d = if name == "big:a" { A } else { B };
+		let lo = b.unit_start(d, hs_units(d) + 1);
+		let mut pool = Vec::new();
+		for off in select_offsets(b.len(d), lo, thorough) {
+			pool.push(Dev::Cut { dir: d, off });
+			pool.push(Dev::Short { dir: d, off });
+		}
+		let mut t = vec![WTask { family: "big", scn: i, mode: Mode::Clean, prefix: vec![], pool: None }];
+		upto_k("big", i, pool, 1, &mut t);
+		families.push(("big", t));
+	}
+	{
+		// F6: key rotation. Default answers up to the neighbourhood of records 500 and 1000 (0-based,
+		// counted after the handshake; the sender re-keys before them), every single cut and short
+		// write inside records 498..=502 and 998..=1002, both directions, plus chunked reads.
+		for name in ctx.scns.iter().map(|s| s.name.clone()).filter(|n| n.starts_with("rot:")) {
+			let i = idx(&name);
+			let b = &ctx.bases[i];
+			let mut pool = Vec::new();
+			for d in 0..2 {
+				let hs = hs_units(d);
+				let nrec = b.units(d) - hs;
+				let mut k = 500;
+				while k + 3 <= nrec {
+					let lo = b.unit_start(d, hs + k - 2);
+					let hi = b.rec_ends[d][hs + k + 2];
+					let step = if thorough || name == "rot:a:1003" || name == "rot:b:1003" { 1 } else { 5 };
+					for off in (lo..hi).step_by(step) {
+						pool.push(Dev::Cut { dir: d, off });
+						pool.push(Dev::Short { dir: d, off });
+					}
+					k += 500;
+				}
+			}
+			if pool.is_empty() {
+				cli::die(&format!("vacuity: scenario {} never reaches record 500", name));
+			}
+			let mut t = vec![WTask { family: "rotation", scn: i, mode: Mode::Clean, prefix: vec![], pool: None }];
+			upto_k("rotation", i, pool, 1, &mut t);
+			families.push(("rotation", t));
+		}
+	}
+	{
+		// T1: bit flips. Every bit of every handshake act, of every record's length header, its MAC,
+		// its body and its body MAC in the short sequences; the max-size body every 64th bit (quick).
+		for name in ["seq", "seqchan"] {
+			let i = idx(name);
+			let b = &ctx.bases[i];
+			let mut devs = Vec::new();
+			for d in 0..2 {
+				for bit in 0..b.len(d) * 8 {
+					devs.push(Dev::Flip { dir: d, bit });
+				}
+			}
+			let mut t = Vec::new();
+			tamper_tasks("flip", i, devs, &mut t);
+			families.push(("flip", t));
+		}
+		for name in ["big:a", "big:b"] {
+			let i = idx(name);
+			let b = &ctx.bases[i];
+			let d = if name == "big:a" { A } else { B };
+			let u = hs_units(d) + 2; // acts, Init, small message, then the big record
+			let (s, e) = (b.unit_start(d, u), b.rec_ends[d][u]);
+			let mut devs = Vec::new();
+			for bit in s * 8..e * 8 {
+				let off = bit / 8;
+				let in_body = off >= s + 18 && off < e - 16;
+				if !in_body || thorough || bit % 64 == 0 {
+					devs.push(Dev::Flip { dir: d, bit });
+				}
+			}
+			let mut t = Vec::new();
+			tamper_tasks("flip-big", i, devs, &mut t);
+			families.push(("flip-big", t));
+		}
+		{
+			// flips right after a key rotation (records 499, 500, 501)
+			let i = idx("rot:a:1003");
+			let b = &ctx.bases[i];
+			let mut devs = Vec::new();
+			for k in [499usize, 500, 501, 1000] {
+				let u = hs_units(A) + k;
+				let (s, e) = (b.unit_start(A, u), b.rec_ends[A][u]);
+				for bit in s * 8..e * 8 {
+					if thorough || bit % 8 == 0 || (bit / 8) < s + 2 {
+						devs.push(Dev::Flip { dir: A, bit });
+					}
+				}
+			}
+			// the oracle for this scenario only needs "rejected, nothing at or after the record delivered";
+			// record k carries message k-1 (one ping is appended at the end, after all 1003 messages)
+			let mut t = Vec::new();
+			tamper_tasks("flip-rotation", i, devs, &mut t);
+			families.push(("flip-rotation", t));
+		}
+	}
+	{
+		// T2: truncation at every offset followed by disconnect
+		for name in ["seq", "seqchan"] {
+			let i = idx(name);
+			let b = &ctx.bases[i];
+			let mut devs = Vec::new();
+			for d in 0..2 {
+				for off in 0..=b.len(d) {
+					devs.push(Dev::Trunc { dir: d, off });
+				}
+			}
+			let mut t = Vec::new();
+			tamper_tasks("trunc", i, devs, &mut t);
+			families.push(("trunc", t));
+		}
+		for name in ["big:a", "big:b"] {
+			let i = idx(name);
+			let b = &ctx.bases[i];
+			let d = if name == "big:a" { A } else { B };
+			let lo = b.unit_start(d, hs_units(d) + 1);
+			let devs: Vec<Dev> = select_offsets(b.len(d) + 1, lo, thorough).into_iter().map(|off| Dev::Trunc { dir: d, off }).collect();
+			let mut t = Vec::new();
+			tamper_tasks("trunc", i, devs, &mut t);
+			families.push(("trunc", t));
+		}
+	}
+	{
+		// T3: replay / reorder / drop / reflect whole units
+		for name in ["seq", "seqchan"] {
+			let i = idx(name);
+			let b = &ctx.bases[i];
+			let mut devs = Vec::new();
+			for d in 0..2 {
+				let n = b.units(d);
+				let unit = |dd: usize, u: usize| b.streams[dd][b.unit_start(dd, u)..b.rec_ends[dd][u]].to_vec();
+				for j in 0..=n {
+					let at = if j == n { b.len(d) } else { b.unit_start(d, j) };
+					// replay of an earlier unit of the same direction before unit j (or at the very end)
+					for src in 0..j.min(n) {
+						devs.push(Dev::Splice { dir: d, at, del: 0, ins: unit(d, src) });
+					}
+					// reflection: a unit of the opposite direction
+					for src in 0..b.units(1 - d) {
+						devs.push(Dev::Splice { dir: d, at, del: 0, ins: unit(1 - d, src) });
+					}
+					if j < n {
+						let len = b.rec_ends[d][j] - at;
+						// unit j dropped
+						devs.push(Dev::Splice { dir: d, at, del: len, ins: vec![] });
+						// unit j replaced by a later one (reordering)
+						for src in j + 1..n {
+							devs.push(Dev::Splice { dir: d, at, del: len, ins: unit(d, src) });
+						}
+						// unit j replaced by zeros / by itself with the two halves swapped
+						devs.push(Dev::Splice { dir: d, at, del: len, ins: vec![0u8; len] });
+						let mut sw = unit(d, j);
+						sw.rotate_left(len / 2);
+						if sw != unit(d, j) {
+							devs.push(Dev::Splice { dir: d, at, del: len, ins: sw });
+						}
+					}
+				}
+			}
+			let mut t = Vec::new();
+			tamper_tasks("splice", i, devs, &mut t);
+			families.push(("splice", t));
+		}
+	}
+
+	// 4. run
+	let mut samples: Vec<Value> = Vec::new();
+	let mut per_family: BTreeMap<String, Value> = BTreeMap::new();
+	for (fam, tasks) in &families {
+		if !want(fam) {
+			continue;
+		}
+		let t0 = Instant::now();
+		let results = par::map(tasks, threads, |_, t| {
+			let mut a = Agg::default();
+			exec_world(&ctx, t, &mut a);
+			a
+		});
+		let mut a = Agg::default();
+		for r in results {
+			match r {
+				Ok(x) => a.merge(x),
+				Err(p) => cli::die(&format!("harness panic outside the guarded subject call: {}", p)),
+			}
+		}
+		let secs = t0.elapsed().as_secs_f64();
+		timings.push((fam.to_string(), secs, a.runs));
+		let e = per_family.entry(fam.to_string()).or_insert(json!({"runs": 0u64, "wall_s": 0.0}));
+		e["runs"] = json!(e["runs"].as_u64().unwrap() + a.runs);
+		e["wall_s"] = json!(((e["wall_s"].as_f64().unwrap() + secs) * 1000.0).round() / 1000.0);
+		if samples.len() < 12 {
+			if let Some(t) = tasks.iter().rev().find(|t| t.pool.is_some()) {
+				let (pool, from, _) = t.pool.as_ref().unwrap();
+				let mut d: Vec<Value> = t.prefix.iter().map(|x| x.to_json()).collect();
+				d.push(pool[*from].to_json());
+				samples.push(json!({"family": fam, "scenario": ctx.scns[t.scn].name, "devs": d}));
+			}
+		}
+		agg_total.merge(a);
+	}
+
+	// raw peer
+	let mut raw_runs = 0u64;
+	if want("raw") {
+		let t0 = Instant::now();
+		let cases = raw_cases(tier);
+		let chunks: Vec<&[RawCase]> = cases.chunks(128).collect();
+		let results = par::map(&chunks, threads, |_, ch| {
+			let mut a = Agg::default();
+			for c in ch.iter() {
+				exec_raw(&ctx, c, &mut a);
+			}
+			a
+		});
+		let mut a = Agg::default();
+		for r in results {
+			match r {
+				Ok(x) => a.merge(x),
+				Err(p) => cli::die(&format!("harness panic outside the guarded subject call: {}", p)),
+			}
+		}
+		raw_runs = a.runs;
+		timings.push(("raw".into(), t0.elapsed().as_secs_f64(), a.runs));
+		per_family.insert("raw".into(), json!({"runs": a.runs, "wall_s": (t0.elapsed().as_secs_f64() * 1000.0).round() / 1000.0}));
+		if let Some(c) = cases.iter().find(|c| c.family == "wellformed-before-init") {
+			samples.push(raw_replay(c));
+		}
+		agg_total.merge(a);
+	}
+
+	// 5. violations: keep the smallest witness per (oracle, family, scenario)
+	let mut best: BTreeMap<(String, String, String), Viol> = BTreeMap::new();
+	for v in agg_total.viol.drain(..) {
+		let k = (v.oracle.clone(), v.family.clone(), v.scenario.clone());
+		let better = match best.get(&k) {
+			None => true,
+			Some(o) => (v.weight, &v.what) < (o.weight, &o.what),
+		};
+		if better {
+			best.insert(k, v);
+		}
+	}
+	let n_viol_runs = best.len();
+	for (_, v) in best {
+		violations.push(Violation {
+			property: ID.into(),
+			oracle: v.oracle.clone(),
+			identity: format!("{}|{}|{}|{}", v.oracle, v.family, v.scenario, v.what),
+			detail: v.detail,
+			replay: v.replay,
+		});
+	}
+
+	// 6. vacuity guards (only meaningful when the whole suite ran and nothing fired)
+	let capped = ctx.capped.load(Ordering::Relaxed);
+	let a = &agg_total;
+	let full = only.is_none();
+	if full && violations.is_empty() && !capped {
+		let need = |ok: bool, what: &str| {
+			if !ok {
+				cli::die(&format!("vacuity guard: {}", what));
+			}
+		};
+		need(a.effective_cut > 1000, "fewer than 1000 runs in which a cut actually split a read");
+		need(a.effective_short > 1000, "fewer than 1000 runs in which send_data actually accepted less than offered");
+		need(a.zero_accept_runs > 100, "fewer than 100 runs in which send_data accepted 0 bytes");
+		need(a.delay_runs > 100, "no runs with a delayed write_buffer_space_avail");
+		need(a.skip_runs > 10, "no runs with a skipped process_events");
+		need(a.deferred_read_runs > 50, "back-pressure never actually deferred a read");
+		need(a.pause_signal_runs > 50, "LDK never asked the driver to pause reading");
+		need(a.rotation_runs > 100, "fewer than 100 runs crossed a key rotation");
+		need(a.max_records >= 1000, "no run crossed the second key rotation (record 1000)");
+		for st in ["flip:act1", "flip:act2", "flip:act3", "flip:init-len", "flip:init-len-mac", "flip:init-body", "flip:init-body-mac", "flip:len", "flip:len-mac", "flip:body", "flip:body-mac", "trunc:body", "trunc:len-mac", "trunc:act3", "splice:len", "splice:act3", "raw:wellformed-before-init:rejected", "raw:wellformed-after-init:not-rejected", "raw:garbage-act1-head:rejected", "raw:garbage-act2-head:rejected", "raw:garbage-act1-head:not-rejected", "raw:garbage-act2-head:not-rejected", "raw:ref-act3-bitflip:rejected", "raw:handshake-completed-with-reference", "raw:type-sweep-before-init:rejected", "raw:max-size-message:not-rejected"] {
+			need(a.stage_rejects.get(st).copied().unwrap_or(0) > 0, &format!("no run of stage `{}` was observed", st));
+		}
+		need(a.outcomes.len() >= 8, "fewer than 8 distinct outcomes");
+	}
+
+	// 7. evidence
+	let runs_total = a.runs + if want("cipher") { 1 } else { 0 };
+	ev.set("states", a.digests.len().max(1) as u64);
+	ev.set("transitions", a.api_calls.max(1));
+	ev.set("traces_validated_against_impl", runs_total);
+	ev.set("state_definition", "distinct digests of (scenario, bytes sent per direction, bytes read per direction, records completed, bytes held by the driver, handler-observation count, blocked/paused/closed/error flags) after every driver step");
+	ev.set("transition_definition", "calls into PeerManager made by the driver (read_event, write_buffer_space_avail, process_events, socket_disconnected, new_*_connection)");
+	ev.set("capped", capped);
+	ev.set("cap_s", cap_s);
+	ev.set("runs_skipped_by_cap", a.skipped_by_cap);
+	ev.set("raw_peer_runs", raw_runs);
+	ev.set("families", Value::Object(per_family.into_iter().collect()));
+	ev.set("timings", timings.iter().map(|(f, s, r)| json!([f, (s * 1000.0).round() / 1000.0, r])).collect::<Vec<_>>());
+	ev.set(
+		"vacuity",
+		json!({
+			"runs_where_a_cut_split_a_read": a.effective_cut,
+			"runs_where_send_data_accepted_less_than_offered": a.effective_short,
+			"runs_where_send_data_accepted_zero_bytes": a.zero_accept_runs,
+			"runs_with_delayed_write_buffer_space_avail": a.delay_runs,
+			"runs_with_skipped_process_events": a.skip_runs,
+			"runs_where_backpressure_deferred_a_read": a.deferred_read_runs,
+			"runs_where_ldk_paused_reads": a.pause_signal_runs,
+			"runs_crossing_a_key_rotation": a.rotation_runs,
+			"max_records_one_direction": a.max_records,
+			"handler_observations_total": a.delivered_msgs,
+			"runs_with_read_event_err": a.read_err_runs,
+			"accepted_per_stage": a.stage_rejects,
+		}),
+	);
+	ev.set("distinct_outcomes", a.outcomes.len() as u64);
+	ev.set("outcomes", a.outcomes.iter().take(60).map(|(k, v)| json!([k, v])).collect::<Vec<_>>());
+	ev.set("violating_witnesses", n_viol_runs as u64);
+	ev.set(
+		"bounds",
+		json!({
+			"quick": "hs: all <=2 deviations (cuts, short writes incl. 0 bytes, skipped process_events, delayed writable); seq: all singles, pairs from the Init records on; chan/gossip msgs: singles; pause: singles + short x delay + short(A) x cut/short(B) stride 3; big: selected offsets; rotation: every cut/short in records 498..502 and 998..1002; flips: every bit of acts and small records, every 64th body bit of the 65535-byte record; trunc: every offset (small), selected (big); splices: replay/reflect/drop/reorder of whole units",
+			"thorough": "adds every triple of cuts over handshake+Init, all pairs for seq and chan msgs, all offsets and all body bits of the max-size record, 2505-message runs (5 rotations)",
+		}),
+	);
+	for s in samples {
+		ev.sample(s, 16);
+	}
+	ev.assume("secp256k1, SHA-256/HMAC and the chacha20-poly1305 crate behave to specification (they are shared by LDK and the reference)");
+	ev.assume("the independent reference in bolt8.rs is correct; it reproduces the BOLT-8 appendix vectors (handshake transcript, keys, messages 0/1/500/501/1000/1001) at start-up");
+	ev.assume("calls into one PeerManager are sequential (no lock-level concurrency); a driver honours continue_read=false by not calling read_event, as the SocketDescriptor contract asks");
+	ev.assume("message handlers never fail: the harness handlers accept every message; handler-induced disconnects are out of scope");
+	ev.assume("hash-table iteration inside LDK is made reproducible by hook H1; only one peer is connected per PeerManager");
+	eprintln!("C15 {}: {} runs, {} api calls, {} states, {:.1}s, capped={}", tier.name(), runs_total, a.api_calls, a.digests.len(), start.elapsed().as_secs_f64(), capped);
+	for (f, s, r) in &timings {
+		eprintln!("  {:<16} {:>9} runs {:>8.2}s", f, r, s);
+	}
+	std::process::exit(findings::conclude(ID, &violations, &mut ev));
 }
